@@ -259,16 +259,17 @@ def layout_branches(layout):
     used in queue names)), tags."""
     ndev, stab_mask, hotfix = layout
     out, tags = [], []
-    if hotfix == 1:
+    # hotfix 3 = both maintenance lines at once (two hotfix queues)
+    if hotfix in (1, 3):
         out.append(('hotfix', 'hotfix/0.9.0', '0.9.0.%d' % HOTFIX_QUEUE_SUFFIX))
         tags.append('0.9.0.%d' % (HOTFIX_QUEUE_SUFFIX - 1))
-    elif hotfix == 2:
+    if hotfix in (2, 3):
         out.append(('hotfix', 'hotfix/1.0.0', '1.0.0.%d' % HOTFIX_QUEUE_SUFFIX))
         tags.append('1.0.0.%d' % (HOTFIX_QUEUE_SUFFIX - 1))
     for i in range(ndev):
         major = i + 1
         if stab_mask >> i & 1:
-            micro = 1 if (hotfix == 2 and i == 0) else 0
+            micro = 1 if (hotfix in (2, 3) and i == 0) else 0
             v = '%d.0.%d' % (major, micro)
             out.append(('stabilization', 'stabilization/' + v, v))
         v = '%d.0' % major
